@@ -163,3 +163,40 @@ def run_c19(sink, rng, n, impl, codecs):
                     sink.violation('%s: bytes / decoded values of a type depend on how the specification is organised (order of the assignments, reference vs inline copy)' % codec,
                                    {'codec': codec, 'type': name, 'value': repr(v), 'uses_of_key': fam['uses'],
                                     'arrangements': {k: fam[k] for k in specs}, 'outcomes': {k: repr(o)[:300] for k, o in outs.items()}})
+
+
+def in_size(t, v):
+    sz = t.get('size')
+    if not sz:
+        return True
+    n = v[1] if t['k'] == 'bits' else len(v)
+    return sz[0] <= n and (sz[1] is None or n <= sz[1])
+
+
+def run_c01(sink, rng, n, impl, codecs, py_equal):
+    """round trip of every value that satisfies the constraints written at ITS OWN member (a constraint of a same-named member
+    of another type must not leak in through the compiled-type cache)"""
+    for i in range(n):
+        fam = build(rng)
+        for codec in codecs:
+            st, spec = impl.compile_text(fam['text'], codec)
+            if st != 'ok':
+                sink.count('aliasfam.compile.%s' % st)
+                continue
+            for name, ast_t, v in fam['probes']:
+                key_t = [m for m in ast_t['root'] if m['name'] == 'key'][0]['t']
+                if 'key' in v and not in_size(key_t, v['key']):
+                    continue
+                sink.case((fam['text'], name, repr(v), codec))
+                r = impl.encode(spec, name, v)
+                sink.count('aliasfam.%s.enc.%s' % (codec, r[0] if r[0] == 'ok' else r[1].split(':')[0]))
+                if r[0] != 'ok':
+                    if r[1] == 'Timeout':
+                        continue
+                    sink.violation('%s: a value inside the constraints of its own type is rejected by the encoder (%s)' % (codec, r[1]),
+                                   {'codec': codec, 'module': fam['text'], 'type': name, 'value': repr(v), 'error': r[2][:200]})
+                    continue
+                d = impl.decode(spec, name, r[1])
+                if d[0] != 'ok' or not py_equal(ast_t, d[1], v):
+                    sink.violation('%s: a value does not round-trip (members that share a name and a referenced type)' % codec,
+                                   {'codec': codec, 'module': fam['text'], 'type': name, 'value': repr(v), 'encoded': r[1].hex(), 'decoded': repr(d[1:])[:300]})
